@@ -18,6 +18,7 @@ struct Prog {
     uint8_t destroy_after;         // 255 = never; else destroy after that many received values (if parked at a yield)
     bool plain_consumer;           // consumer is ordinary blocking code on the main thread (synchronous styles only)
     bool move_between = false;     // the generator object is moved away and back between some accesses
+    bool keep_awaiter = false;     // the object returned by next() is kept and co_awaited again for every further "co_await next()" access
 };
 
 inline Prog decode(hz::Reader &r) {
@@ -42,6 +43,7 @@ inline Prog decode(hz::Reader &r) {
         for (auto &st : p.styles) if (st == S_CO_NEXT || st == S_CO_FUTURE || st == S_FUTURE_SELF_RESOLVE) st = (uint8_t)(st % 4);
     }
     p.move_between = r.mod(2) == 1;
+    p.keep_awaiter = r.mod(2) == 1;
     return p;
 }
 
@@ -54,6 +56,7 @@ inline std::string describe(const Prog &p) {
     d << " (return); access styles:";
     for (auto s : p.styles) d << " " << st[s];
     if (p.move_between) d << "; the generator object is moved away and back between accesses";
+    if (p.keep_awaiter) d << "; co_await next() re-awaits ONE kept awaiter object (each co_await of it performs one step)";
     if (p.destroy_after != 255) d << "; destroyed after " << (unsigned)p.destroy_after << " values";
     return d.s;
 }
@@ -135,6 +138,8 @@ template<int GK>
 cocls::async<void> consumer(const Prog *p, Gates *gates, Result *res) {
     using G = typename GT<GK>::G;
     G g = body<GK>(p, gates);
+    // (generator<T,Arg>::next needs its argument: no kept awaiter there)
+    auto kept_step = [&] { if constexpr (GK == 2) return 0; else return g.next(); }();
     std::optional<typename G::iterator> it;
     size_t script_pos = 0, gate_idx = 0, call = 0;
     bool ended = false;
@@ -192,7 +197,9 @@ cocls::async<void> consumer(const Prog *p, Gates *gates, Result *res) {
                 } break;
                 case S_CO_NEXT: {
                     bool more;
-                    if constexpr (GK == 2) { more = co_await g.next(arg); } else { more = co_await g.next(); }
+                    if constexpr (GK == 2) { more = co_await g.next(arg); }
+                    else if (p->keep_awaiter && !p->move_between) { more = co_await kept_step; }
+                    else { more = co_await g.next(); }
                     if (!more) code = -1; else code = GT<GK>::dec(g.value());
                 } break;
                 case S_CO_FUTURE: {
